@@ -72,6 +72,10 @@ class Type:
         if self.is_array:
             return False
         if self.is_numeric and isinstance(value, numbers.Number):
+            if isinstance(value, float) and \
+               (value != value or value in (float('inf'), float('-inf'))):
+                # no QBASIC type has infinities or NaNs
+                return False
             if self._type == BuiltinType.INTEGER:
                 return -32768 <= value <= 32767
             elif self._type == BuiltinType.LONG:
@@ -592,6 +596,10 @@ class NumericLiteral(Expr):
             except OverflowError:
                 raise ValueError(
                     'Illegal number (does not fit in SINGLE)')
+        if not literal_type.can_hold(value):
+            raise ValueError(
+                f'Illegal number (does not fit in '
+                f'{literal_type.name.upper()})')
 
         return cls(value, literal_type)
 
